@@ -73,10 +73,17 @@ func genExtValues(rg *rand.Rand) []tls.TLSExtension {
 	}
 	ech := tls.BoringGREASEECH()
 	if rg.Intn(2) == 0 {
-		ech = &tls.GREASEEncryptedClientHelloExtension{
-			CandidateCipherSuites: []tls.HPKESymmetricCipherSuite{{KdfId: 1, AeadId: []uint16{1, 2, 3}[rg.Intn(3)]}},
-			CandidatePayloadLens:  []uint16{uint16(n(300))},
+		// every (KDF, AEAD) pair the HPKE registry names for ECH: HKDF-SHA256/384/512 x
+		// AES-128-GCM/AES-256-GCM/ChaCha20-Poly1305; several candidates, several lengths
+		var cands []tls.HPKESymmetricCipherSuite
+		for k := 0; k < 1+rg.Intn(3); k++ {
+			cands = append(cands, tls.HPKESymmetricCipherSuite{KdfId: []uint16{1, 2, 3}[rg.Intn(3)], AeadId: []uint16{1, 2, 3}[rg.Intn(3)]})
 		}
+		var lens []uint16
+		for k := 0; k < 1+rg.Intn(3); k++ {
+			lens = append(lens, uint16(n(300)))
+		}
+		ech = &tls.GREASEEncryptedClientHelloExtension{CandidateCipherSuites: cands, CandidatePayloadLens: lens}
 	}
 	host := []string{"", "example.test", "192.0.2.1", "a.b.c.test.", sniOfLen(3+n(250), 1)}[rg.Intn(5)]
 	pad := &tls.UtlsPaddingExtension{PaddingLen: n(600), WillPad: rg.Intn(4) != 0}
@@ -119,7 +126,7 @@ func genExtValues(rg *rand.Rand) []tls.TLSExtension {
 func TestC08(t *testing.T) {
 	r := mon.New("C08", "every built-in TLSExtension type (31 structs) x generated field values (lists of 1..n entries, boundary lengths): Len() vs bytes Read() writes into a canary-tailed buffer, header/inner length prefixes under the strict grammar, io.ErrShortBuffer on every shorter buffer (all sizes for n<=96, sampled above), and for writers Read(Write(body)) reproduces the bytes modulo the documented normalisations (independent normaliser). distinct = (type, encoded length) pairs")
 	defer r.Finish(t)
-	rounds := mon.Pick(600, 30000)
+	rounds := mon.Pick(3000, 30000)
 	typesSeen := map[string]int{}
 	for i := 0; i < rounds; i++ {
 		rg := Sub("C08", i)
